@@ -452,3 +452,17 @@ func (ci *chainInst) reorg(f, k int) error {
 	}
 	return nil
 }
+
+// extend mines k empty blocks on top of the current tip.
+func (ci *chainInst) extend(k int) error {
+	for i := 0; i < k; i++ {
+		best := ci.chain.BestSnapshot()
+		h := best.Height + 1
+		blk := buildBlock(ci.params, best.Hash, h, worldT0+worldSpacing*int64(h)+13, 2, nil, 0)
+		_, isOrphan, err := ci.chain.ProcessBlock(blk, blockchain.BFNone)
+		if err != nil || isOrphan {
+			return fmt.Errorf("extend block %d: %v orphan=%v", h, err, isOrphan)
+		}
+	}
+	return nil
+}
